@@ -294,6 +294,15 @@ Proof.
     + rewrite deliver_sys_pending, notify_all_pending. reflexivity.
 Qed.
 
+Lemma start_instance_bal s u self parent s' o p : start_instance roles s u self parent = (s', o, p) -> bal s s' o 0.
+Proof.
+  unfold start_instance. destruct (handle roles s u TRD 0 self) as [[s1 o1] p1] eqn:E1.
+  destruct (handle roles s1 u TL 0 parent) as [[s2 o2] p2] eqn:E2. intros H; inversion H; subst.
+  apply handle_life_bal in E1; [|intros n; discriminate]. apply handle_life_bal in E2; [|intros n; discriminate].
+  unfold bal in *. rewrite sentc_app, handc_app, deadc_app.
+  destruct p2; [lia|rewrite pending_upd_actor by keep; lia].
+Qed.
+
 Lemma try_restarted_bal s u snd s' o p : try_restarted roles s u snd = (s', o, p) -> bal s s' o 0.
 Proof.
   unfold try_restarted. destruct (get s u) as [a|]; [|intros H; inversion H; subst; apply bal_refl].
@@ -305,8 +314,8 @@ Proof.
     + intros s3 o3 p3 E. apply handle_life_bal in E; [exact E|intros n; discriminate].
     + intros s3 s4 o4 p4. destruct (provide s3 (a_tok a)) as [s5 inst] eqn:Ep.
       assert (H5 : pending s5 = pending s3) by (change s5 with (fst (s5, inst)); rewrite <- Ep; reflexivity).
-      intros H; inversion H; subst. apply bal_quiet; try reflexivity.
-      rewrite !deliver_sys_pending. rewrite pending_upd_actor by keep. exact H5.
+      intros H. apply start_instance_bal in H. unfold bal in *.
+      rewrite deliver_sys_pending in H. rewrite pending_upd_actor in H by keep. lia.
 Qed.
 
 Lemma apply_directive_bal s u r d snd s' o p : apply_directive roles s u r d snd = (s', o, p) -> bal s s' o 0.
